@@ -112,6 +112,26 @@ Theorem coalesced_store_straddle_refuted :
 Proof. exists 6, 28, 1, [318], [[7]], m4. split; [reflexivity|]. split; [discriminate|]. vm_compute. reflexivity. Qed.
 Print Assumptions coalesced_store_straddle_refuted.
 
+(** Mechanism 3, scalar loads (s_load_dword, x2, x4, x8, x16): for every line size
+    of at least one dword, every start address (both modes drop its two low
+    bits), every memory and SGPR file: the cache-line pieces the timing scalar
+    unit requests, written back piece by piece, leave the SGPRs the emulator's
+    single read leaves. *)
+Theorem smem_split_eq_emu : forall lg op start dst m rf sz,
+  2 <= lg -> smem_size op = Some sz ->
+  exists wt we, timing_smem lg op start dst m = Some wt /\ emu_smem op start dst m = Some we /\
+    forall k, apply_s wt rf k = apply_s we rf k.
+Proof. intros. eapply smem_eq; eauto. Qed.
+Print Assumptions smem_split_eq_emu.
+
+Example smem_demo :
+  map (fun p => (fst (fst p), snd (fst p))) (smem_pieces 6 33 56 56 32 8) = [(56, 8); (64, 24)] /\
+  omap (fun ws => map (apply_s ws ssentinel) [8; 9; 10; 15; 16])
+       (timing_smem 6 3 58 8 (fun a => a mod 256)) =
+  omap (fun ws => map (apply_s ws ssentinel) [8; 9; 10; 15; 16])
+       (emu_smem 3 58 8 (fun a => a mod 256)).
+Proof. vm_compute. auto. Qed.
+
 (** Non-vacuity: a two-lane x2 load over two cache lines satisfies the
     hypotheses, produces two transactions, and both sides write four registers. *)
 Example load_demo :
